@@ -44,7 +44,12 @@ EXERCISED = (
     "under way; two overlapping shutdown() calls; every public sending method as the eleventh "
     "message of a full buffer; fractional and infinite arguments; the first subscriber "
     "arriving while a frame is incomplete; leftover legacy bytes beside the AT4 group bitmap; "
-    "host names instead of addresses for discovery")
+    "host names instead of addresses for discovery; sending tasks cancelled by the application "
+    "while suspended; dozens of damaged frames over the life of one socket; message objects "
+    "changed in place and sent again; the AirTouch object dropped while its air-conditioner "
+    "objects are kept; zone names listed in any order and zone numbers with gaps; init() "
+    "overlapping a shutdown() that has just started; heartbeat configurations built "
+    "positionally")
 
 T = """You are helping to evaluate a verification harness by producing a *subtle, realistic regression* in a Python library.
 
